@@ -21,6 +21,7 @@ import (
 	"verif/explore"
 	"verif/hooks"
 	"verif/props/corpus"
+	"verif/ref/teletext"
 )
 
 type budgetExceeded struct{ steps int64 }
@@ -363,7 +364,7 @@ func instrRun(c *core.Ctx) {
 		}
 		fields := [][2]int{{0, 3}, {3, 11}, {11, 12}, {12, 14}, {14, 16}, {16, 48}, {208, 224}, {224, 230}, {230, 236}, {236, 238}, {238, 243}, {243, 248}, {248, 251}, {251, 253}, {253, 255}, {255, 256}, {256, 264}, {264, 272}, {272, 273}, {273, 274}, {274, 277}}
 		for _, f := range fields {
-			for _, fill := range []byte{' ', 'x', 0xFF, '0', '9', 0x00} {
+			for _, fill := range []byte{' ', 'x', 0xFF, '0', '9', 0x00, '-', '+'} {
 				m := append([]byte{}, stlBase...)
 				for i := f[0]; i < f[1]; i++ {
 					m[i] = fill
@@ -399,6 +400,20 @@ func instrRun(c *core.Ctx) {
 					m[1024+16] = byte(a)
 					m[1024+17] = b
 					stl(fmt.Sprintf("DSC %q TTI text starts %#x %#x", dsc, a, b), m)
+				}
+			}
+		}
+		// full text fields: 112 bytes without padding, each byte class in turn at the last positions
+		for _, dsc := range []byte{'0', '1'} {
+			for _, body := range []byte{'a', 0xc1, 0x8a, 0x0b, 0x80, 0x20} {
+				for _, last := range []byte{'a', 0xc1, 0xc8, 0x8a, 0x8f, 0x0a, 0x0b, 0x85, 0xff} {
+					m := append([]byte{}, stlBase...)
+					m[11] = dsc
+					for i := 0; i < 112; i++ {
+						m[1024+16+i] = body
+					}
+					m[1024+16+111] = last
+					stl(fmt.Sprintf("DSC %q full text field of %#x ending in %#x", dsc, body, last), m)
 				}
 			}
 		}
@@ -467,9 +482,9 @@ func instrRun(c *core.Ctx) {
 		g(c, do)
 	}
 	// linear bound on scaled inputs: the same cue repeated 2^k times
-	for _, f := range []string{"srt", "vtt", "ssa", "ttml", "stl"} {
+	for _, f := range []string{"srt", "vtt", "ssa", "ttml", "stl", "ts"} {
 		maxK := 12
-		if f == "stl" {
+		if f == "stl" || f == "ts" {
 			maxK = 9
 		}
 		for k := 0; k <= maxK; k++ {
@@ -525,6 +540,12 @@ func scaled(f string, n int) []byte {
 			fmt.Fprintf(&b, "<p begin=\"%ds\" end=\"%d.5s\"><span>line %d</span><br/>second</p>\n", i, i, i)
 		}
 		b.WriteString("</div></body></tt>")
+	case "ts":
+		sp := teletext.Spec{}
+		for i := 0; i < n; i++ {
+			sp.Pages = append(sp.Pages, teletext.Page{Number: 888, AtMs: int64(i+1) * 1000, Rows: []teletext.RowText{{Row: 20, Text: "line"}, {Row: 22, Text: "second"}}})
+		}
+		return teletext.BuildTS(sp)
 	case "stl":
 		s := astisub.NewSubtitles()
 		d := time.Date(2020, 1, 2, 0, 0, 0, 0, time.UTC)
